@@ -282,8 +282,9 @@ func (ip *Interp) rangeIter(t types.Type, x Value) Value {
 		live := ip.mapLive(xv)
 		n := len(live)
 		if n > 1 {
-			if ip.inInit {
-				// concrete init: insertion order (init results must not depend on it; see DESIGN)
+			if ip.inInit || ip.orderBaseline {
+				// concrete init: insertion order (init results must not depend on it; see DESIGN);
+				// baseline run of a determinism harness: insertion order, no choice
 			} else if ip.MapOrderPolicies < 0 {
 				// single-deviation mode: every range uses insertion order except at
 				// most one per path, which is reversed or rotated (2N+1 paths for N
